@@ -15,6 +15,10 @@ NOTES = {
     'C03-r4m2': 'first run: exit 3 with 35 of 36 obligations discharged and no counterexample (the harness was being edited while it '
                 'ran: one obligation name no longer existed) - not a detection',
 }
+BY_CONSTRUCTION = {
+    'C01-r5m2': 'the quick tier had no instruction-count vector with exactly one empty phase (the thorough tier had); the five '
+                'vectors were added from the author\'s description while the first run was being started',
+}
 ALSO = {
     'C04-r4m2': ['C02 K3:chain:setup-main, K3:chain:post (the check of C02 caught it before C04 was strengthened)'],
 }
@@ -50,7 +54,11 @@ def main():
         if rc1 is None and rc2 is None and entry.get('caught_by'):
             continue      # collected earlier; logs gone
         note = []
-        if rc1 == 1:
+        if seed in BY_CONSTRUCTION and (rc1 == 1 or rc2 == 1):
+            entry.update(caught_by=prop, obligations=obligations_of(log1 if rc1 == 1 else log2))
+            note.append('strengthened before the first run, from the author\'s description: ' + BY_CONSTRUCTION[seed])
+            tally['strengthened'].append(seed)
+        elif rc1 == 1:
             entry.update(caught_by=prop, obligations=obligations_of(log1))
             tally['at_once'].append(seed)
         elif rc2 == 1:
